@@ -372,6 +372,7 @@ def combinator_summaries(P):
     P[r'Option::and_then'] = _combinator(('Some',), lambda r: r)
     P[r'Option::or_else'] = _combinator(('None',), lambda r: r)
     P[r'Result::map'] = _combinator(('Ok',), lambda r: Enum('Ok', (r,)))
+    P[r'Option::map'] = _combinator(('Some',), lambda r: Enum('Some', (r,)))
     P[r'(?:Option|Result)::map_or'] = _map_or
     P[r'(?:Option|Result)::map_or_else'] = _map_or_else
     P[r'(?:Option|Result)::unwrap_or_else'] = _unwrap_or_else
@@ -441,7 +442,6 @@ def std_summaries():
     P[r'Result::is_err'] = lambda se, env, pc, r: one(env, tag_is(se, env, r, ('Err',)))
     P[r'(?:Option|Result)::(?:unwrap|expect)'] = unwrap
     P[r'Option::(?:as_ref|as_mut)'] = as_ref
-    P[r'Option::map'] = opt_map
     P[r'Option::take'] = opt_take
     P[r'Option::insert'] = opt_insert
     P[r'Option::replace'] = opt_replace
